@@ -20,7 +20,7 @@ CONSTANTS
   PlainOps = {"relu", "pool", "flat", "add"}
   Biases = {TRUE, FALSE}
   AllowFindings = TRUE
-  MaxHist = 2
+  MaxHist = 1
 VIEW ViewNoHist
 INVARIANT InvConvertOk
 INVARIANT InvFnPreserved
